@@ -55,7 +55,7 @@ structure CollCase where
   displs : List Nat
   ins : List (List Int)
 
-/-- container views of the MPIData-based reductions: `v…` = a `std::vector<T>` with any functor on `T`, `k…` = one
+/-- container views of the MPIData-based reductions: `v…` = a `std::vector<T>` with a generic functor, `k…` = one
 `FieldVector<int,3>` object reduced entry by entry with a functor on `int` -/
 def isVForm (form : String) : Bool := form == "vrv" || form == "viio" || form == "viip"
 def isKForm (form : String) : Bool := form == "krv" || form == "kiio" || form == "kiip"
@@ -63,7 +63,7 @@ def isKForm (form : String) : Bool := form == "krv" || form == "kiio" || form ==
 /-- the functor of a reduction at cell level (for the `k…` forms: the functor on the entries, cell by cell) -/
 def caseOp (ty fn form : String) : Option (List Int → List Int → List Int) :=
   if isKForm form then
-    (if ty == "fv3" && (isNamed fn || isGenericFun fn || fn == "xor" || fn == "first") then redOp "int" fn else none)
+    (if ty == "fv3" && (isNamed fn || fn == "gsum" || fn == "gprod" || fn == "left" || fn == "right") then redOp "int" fn else none)
   else redOp ty fn
 
 def outElems (k : CollCase) (np rank : Nat) (lens : List Nat) : Nat :=
@@ -106,7 +106,7 @@ def unsupported (k : CollCase) (seq : Bool) (inSize outSize : Nat) : Bool :=
     let vec := isIntrinsic k.ty && isNamed k.fn
     if (caseOp k.ty k.fn form).isNone then true
     else if isKForm form then k.n != 1 || inN != 1 || outN != 1 || (form == "krv" && seq)
-    else if isVForm form then inN != k.n || outN != k.n || (form == "vrv" && seq)
+    else if isVForm form then !(k.fn == "gmin" || k.fn == "gmax" || k.fn == "left" || k.fn == "right") || inN != k.n || outN != k.n || (form == "vrv" && seq)
     else if form == "sc" then !(k.n == 1 && isNamed k.fn)
     else if form == "ar" then !(isNamed k.fn)
     else if form == "ip" || form == "io" then false
